@@ -58,6 +58,8 @@ type Task struct {
 	waitR    *RWMutex
 	waitW    bool // with waitR: wants the write lock
 	wcounted bool // counted in waitR.wwait (it found the lock held)
+	spinSite string
+	spinN    int
 	waitF    func() bool
 	nsp      int
 	sched    *Sched
@@ -86,9 +88,11 @@ type Sched struct {
 
 	WaitIdle func() // synctest.Wait, injected by the harness (keeps this package free of testing deps)
 
-	MaxSteps   int64
-	MaxSimTime time.Duration
-	MaxRun     int // fairness: max consecutive picks of one task while others are runnable
+	MaxSteps    int64
+	spinAfter   int
+	spinQuantum time.Duration
+	MaxSimTime  time.Duration
+	MaxRun      int // fairness: max consecutive picks of one task while others are runnable
 
 	Steps     int64
 	Switches  int64
@@ -218,6 +222,25 @@ func (s *Sched) Pairs() map[string]int {
 		m[k] = v
 	}
 	return m
+}
+
+// FreshStepBudget lets the run take n more scheduling steps from now on, whatever it has used so far.
+//
+//go:norace
+func (s *Sched) FreshStepBudget(n int64) {
+	s.lock()
+	s.MaxSteps = s.Steps + n
+	s.unlock()
+}
+
+// ChargeSpinning: from now on a task that passes the same scheduling point `after` times in a row
+// sleeps for `quantum` of simulated time (see park).
+//
+//go:norace
+func (s *Sched) ChargeSpinning(after int, quantum time.Duration) {
+	s.lock()
+	s.spinAfter, s.spinQuantum = after, quantum
+	s.unlock()
 }
 
 // AbortReason is "" for a normal end, else steplimit / simtime / panic / <custom>.
@@ -432,6 +455,30 @@ func (s *Sched) park(t *Task, site string) {
 	default:
 	}
 	<-t.wake
+	if s.spinAfter > 0 && site != "spin'" {
+		// A loop that keeps coming back to one scheduling point without ever blocking would freeze the
+		// simulated clock (time only moves when everything is blocked). Once a scenario has asked for
+		// it, such a task is charged simulated time, so that whatever is meant to end the loop
+		// (a deadline, a timer) can still happen, and only an endless loop exhausts the step budget.
+		if site == t.spinSite {
+			t.spinN++
+		} else {
+			t.spinSite, t.spinN = site, 1
+		}
+		if t.spinN >= s.spinAfter {
+			t.spinN = 0
+			time.Sleep(s.spinQuantum)
+			s.lock()
+			t.site = "spin'"
+			s.parked = append(s.parked, t)
+			s.unlock()
+			select {
+			case s.poke <- struct{}{}:
+			default:
+			}
+			<-t.wake
+		}
+	}
 	raceEnable()
 }
 
